@@ -1553,7 +1553,7 @@ def _build():
     out.append(dict(
         id="C02-function-nested-type-code-default-dequoted", property="C02",
         pattern=dict(check="format_roundtrip", fmt="function", entry="param", field={"in": ["default", "typ"]}, typ_class={"in": ["Optional", "other"]}, default_kind={"in": ["code", "None"]},
-                     expected={"in": ["code", "Optional[List[Optional[int]]]", "Optional[Union[float, str]]"]}, observed={"in": ["str", "Optional[str]"]}),
+                     expected={"in": ["code", "Optional[List[Optional[int]]]", "Optional[Union[float, str]]", "Optional[List[str]]", "Optional[List[float]]"]}, observed={"in": ["str", "Optional[str]"]}),
         what="[R-default-quotes] with emit_default_doc the prose default of a nested-type parameter wins over the signature default and loses its code quotes; the type is then rewritten from the de-quoted text",
         site="cdd/shared/defaults_utils.py:extract_default / cdd/shared/docstring_parsers.py:_set_name_and_type", example="{'alpha': {'typ': 'Dict[str, List[int]]', 'default': \"```{'k': [1, 2]}```\"}} through function with emit_default_doc=True"))
     out.append(dict(
